@@ -127,6 +127,9 @@ def run(prog, rep):
                 if l is not None and l["k"] == "member" and root_var(l) == sp:
                     if l["field"] == size_field:
                         r = strip_casts(n["r"])
+                        for _hop in range(4):           # `off_t existing = st.st_size; psize sz = (psize) existing; shm->size = sz;`
+                            if r is not None and r["k"] == "ref" and r.get("decl") == "local" and ch.resolve(r) is not None:
+                                r = strip_casts(ch.resolve(r))
                         if r is not None and r["k"] == "member" and r["field"] == "st_size":
                             size_src = "fstat"
                             seen["fstat_size"] += 1
@@ -430,16 +433,32 @@ def run(prog, rep):
     _su = prog.unit("pshm-posix.c")
     _nar = []
     _nst = 0
+
+    def _chain(f_, e_, hops=4):
+        """every node of e_ and of the initialisers of the single-definition locals it reads (with those locals' own types)"""
+        for x in walk(e_):
+            yield x
+            if x["k"] == "ref" and x.get("decl") == "local" and hops > 0:
+                r_ = f_.resolve(x)
+                if r_ is not None:
+                    yield {"k": "cast", "_local": x}
+                    for y in _chain(f_, r_, hops - 1):
+                        yield y
     for _f in _su.functions.values():
         for (_b, _i, _n) in _f.nodes(elsewhere=True):
-            if _n["k"] == "asg" and strip_casts(_n["l"])["k"] == "member" and strip_casts(_n["l"])["field"] == "size" and any(x["k"] == "member" and x["field"] == "st_size" for x in walk(_n["r"])):
+            if not (_n["k"] == "asg" and strip_casts(_n["l"])["k"] == "member" and strip_casts(_n["l"])["field"] == "size"):
+                continue
+            _nodes = list(_chain(_f, _n["r"]))
+            if any(x["k"] == "member" and x.get("field") == "st_size" for x in _nodes):
                 _nst += 1
                 _tw = (_su.type_of(strip_casts(_n["l"])) or {}).get("w") or 64
-                for x in walk(_n["r"]):
+                for x in _nodes:
                     if x["k"] == "cast":
-                        _t = _su.type_of(x)
+                        _t = _su.type_of(x["_local"]) if "_local" in x else _su.type_of(x)
                         if _t and _t.get("k") == "int" and _t.get("w") and _t["w"] < _tw:
                             _nar.append((_n, _t.get("s")))
+    if _nst < 1:
+        raise AnalysisBroken("pshm-posix.c: no store of st_size (directly or through locals) into the size field found")
     rep.ob("C07.2", _su.fn("pp_shm_create_handle"), "fstat:width", _nst >= 1 and not _nar, "the size of an existing segment is taken from st_size at full width" if (_nst >= 1 and not _nar) else
            ("line %d: st_size passes through %s on its way into the handle's size: a segment of 4 GiB or more is reported and mapped modulo 2^32 by every follower" % (line(_nar[0][0]), _nar[0][1])
             if _nar else "the store of st_size into the size field was not found"), _nar[0][0] if _nar else _su.fn("pp_shm_create_handle").loc[0])
@@ -459,6 +478,12 @@ def run(prog, rep):
 RENAME_LOCALS = ['src/pshm-posix.c']
 
 SELFTEST = [
+    dict(id="follower-size-through-typed-locals-neutral", file="src/pshm-posix.c", expect=None,
+         old="\t\tshm->size = (psize) stat_buf.st_size;",
+         new="\t\t{\n\t\t\toff_t existing = stat_buf.st_size;\n\t\t\tpsize as_size = (psize) existing;\n\n\t\t\tshm->size = as_size;\n\t\t}"),
+    dict(id="follower-size-through-narrow-local", file="src/pshm-posix.c", expect="C07.2",
+         old="\t\tshm->size = (psize) stat_buf.st_size;",
+         new="\t\t{\n\t\t\tpuint32 existing = (puint32) stat_buf.st_size;\n\n\t\t\tshm->size = existing;\n\t\t}"),
     dict(id="follower-size-through-32-bits", file="src/pshm-posix.c", expect="C07.2",
          old="\t\tshm->size = (psize) stat_buf.st_size;", new="\t\tshm->size = (puint) stat_buf.st_size;"),
     dict(id="create-handle-reports-success-after-fstat-failure", file="src/pshm-posix.c", expect="C07.2",
